@@ -35,7 +35,7 @@ class C16(SimpleProperty):
             "index, target column (data frames: same, other existing, new), header yes/no and separator tab or ',' "
             "(files). Expected cells come from the scalar method of the implementation itself, cell by cell; for file "
             "operations the bytes before and after are compared when the call raises (the first failing row sits at a "
-            "random position). Non-trivial = some cell converts and some does not, or the call raises.")
+            "random position). Non-trivial = some cell converts and some does not, or the call raises. 40 % of the converters are long-lived (built from a part of the records, used for the same bulk operation once, then extended by new records and merges); data frames carry a reversed, gapped, labelled or repeated index in half of the cases; the characters of the file before and after the call are compared with the csv model.")
     assumptions = ["pandas Series.map and the csv module store and deliver the cells (exercised on real data frames and files)"]
 
     def budget(self, tier):
